@@ -142,6 +142,8 @@ def oracle_all(ctx, o, first_only=False):
                 e1 = vc.eff(name, other)
                 if e1 is None:
                     continue
+                if name in ("cisco_pix", "cisco_asa") and len(other) != len(secret):
+                    continue        # the user name is appended to short passwords before padding: ("pw" + "a", user "a") and ("pw", user "a") share the same input by construction
                 if name == "scram":
                     # SASLprep prohibits control / unassigned / bidi-violating text: such a secret is not admissible for scram
                     try:
